@@ -283,8 +283,12 @@ def gen_table_systematic(rng, stats):
     kinds = [("iter",)]
     k0 = gen_kind(rng, keys, which=1 + rng.below(3))
     kinds.append(k0)
+    # a range that starts at (or before) the first key and ends inside the table: it spans several blocks, and seeks can
+    # land in the block that holds its end or beyond it
+    hi = keys[min(len(keys) - 1, max(1, (2 * len(keys)) // 3))]
+    kinds.append(("range", rng.pick([b"", keys[0]]), rng.pick([hi, hi + b"\x00", hi[:-1] if hi else hi])))
     stats.bump("systematic_table")
-    return lines + systematic_histories(rng, "r", 2, 10, ents, kinds, stats, budget=350)
+    return lines + systematic_histories(rng, "r", 2, 10, ents, kinds, stats, budget=450)
 
 
 # ---------------------------------------------------------------------------------------------
@@ -685,6 +689,10 @@ def gen_merger_case(rng, stats, focus="C04"):
     lines.append("m.it 1 10 iter")
     for _ in range(total + 2):
         lines.append("m.next 10")
+    if mode == "union" and not with_dupsort and not nest and srcs and all(kind == "t" for kind, _ in srcs) and rng.chance(2, 3):
+        # the same tables through the mtbl_merge tool built from the tree, with a test DSO holding the same merge function
+        lines.append("m.tool 1 c=%s b=%d%s" % (rng.pick(["none", "zlib", "snappy", "lz4", "zstd", "lz4hc"]), rng.pick([1024, 1024, 4096, 8192]),
+                                               rng.pick(["", "", " t=0", " t=2"]))); stats.bump("merger_mtbl_merge_tool")
     if mode != "fail" and rng.chance(1, 3):
         # the same content through mtbl_source_write into a fresh table (bytes compared with the writer model)
         lines.append("m.write 1 bs=%d ri=%d" % (rng.pick([16, 32, 64, 200]), rng.pick([1, 2, 3]))); stats.bump("merger_source_write")
@@ -705,7 +713,8 @@ def gen_merger_case(rng, stats, focus="C04"):
     content = [(k, v) for k, v, _ in merged_content(mode, [es for _, es in srcs])]
     if mode != "fail" and 2 <= len(content) <= 9 and (focus == "C05" and rng.chance(1, 3) or rng.chance(1, 10)):
         # small merged view: every (prelude, seek target) pair on it
-        lines += systematic_histories(rng, "m", 1, iid, content, [("iter",), gen_kind(rng, allkeys, which=1 + rng.below(3))], stats, budget=200)
+        hi = allkeys[min(len(allkeys) - 1, max(1, (2 * len(allkeys)) // 3))] if allkeys else b""
+        lines += systematic_histories(rng, "m", 1, iid, content, [("iter",), gen_kind(rng, allkeys, which=1 + rng.below(3)), ("range", b"", hi)], stats, budget=250)
     return lines
 
 
@@ -759,6 +768,12 @@ def oracle_merger(res):
                 continue
             vals = [a for a in t[2:] if "=" not in a]
             mergers[t[1]]["srcs"].append([(unhx(vals[j]), unhx(vals[j + 1])) for j in range(0, len(vals), 2)])
+        elif op == "m.tool":
+            m = mergers[t[1]]
+            content = merged_content("union", m["srcs"])
+            want = "ents" + "".join(" %s %s" % (hx(k), hx(v)) for k, v, _ in content)
+            if real != want and real != "tool skipped":
+                fails.append(("C04", "output of src/mtbl_merge over the same tables: %s, the merged content is %s" % (real[:80], want[:80]), i))
         elif op == "m.write":
             m = mergers[t[1]]
             content = merged_content(m["mode"], m["srcs"])
@@ -1252,7 +1267,8 @@ def gen_enc_script(rng, stats, spec, ents, comp, thr, ctab_lines):
         iid += 1
     if len(keys) <= 8 and rng.chance(1, 2):
         # small foreign-encoded table: every (prelude, seek target) pair, separators included among the targets
-        lines += systematic_histories(rng, "r", 2, iid, ents, [("iter",), gen_kind(rng, keys, which=1 + rng.below(3))], stats, budget=250)
+        hi = keys[min(len(keys) - 1, max(1, (2 * len(keys)) // 3))] if keys else b""
+        lines += systematic_histories(rng, "r", 2, iid, ents, [("iter",), gen_kind(rng, keys, which=1 + rng.below(3)), ("range", b"", hi)], stats, budget=300)
     return lines
 
 
